@@ -142,6 +142,15 @@ class Runner:
         cands = [i for i, tr in enumerate(self.model.trans) if tr['source'] in conf
                  and tr.get('guard') is not None]
         ops = []
+        if k == '2o':
+            # sub-bound: singles + every pair of transitions whose sources lie in different regions
+            T = self.T
+            ops += [('E', (c,)) for c in cands]
+            for c in itertools.combinations(cands, 2):
+                a, b = [self.model.trans[i]['source'] for i in c]
+                if a != b and a not in T.anc(b) and b not in T.anc(a):
+                    ops.append(('E', c))
+            k = 0
         if k == '3o':
             # sub-bound: singles (to move around) + every triple of transitions whose sources are
             # pairwise in different regions of a common orthogonal state
